@@ -3,7 +3,7 @@ import json, re
 from .. import core
 from . import stackcommon as sc
 
-EMITS = set("S V Q G A P PM R X E B ST CB TXT RACE VR NS STORM STORMA STALL PSPLIT LSPLIT NSI RSC DUPW SRPMANY".split())
+EMITS = set("S V Q G A P PM R X E B ST CB TXT RACE VR NS STORM STORMA STALL PSPLIT LSPLIT NSI RSC DUPW CHURN SRPMANY".split())
 
 ADV_SETUP = ["wrongcode", "wrongproof", "noproof", "a0", "aN", "a2N", "aempty", "m5first", "start", "m3wrong", "m5zerokey",
              "m5randkey", "badstep", "badmethod", "garbage", "aNforged", "a0forged", "aemptyforged", "wrongcodezero", "m5zeroempty", "m5emptyhkdf"]
@@ -1065,6 +1065,10 @@ def gen_c13(rng, tier):
             ops = ["N:h", "S:h:c0:ok", "N:x", "V:x:c0:ok", "R:x:odd:%s" % k, "N:q", "V:q:odd:%s" % vv, "K:q",
                    "N:y", "S:y:n2:ok", "N:z", "V:z:n2:ok", "G:z:2.9", "A:z", "P:z:2.9:true:-", "ST", "A:x", "P:x:2.9:false:-"]
             mk(cases, "robust", ops, {"state": "verified"})
+    # directed: peers that never pair keep connections busy while others connect and disconnect in a loop (the accessory's table
+    # of connections is used by all of them at once); afterwards the accessory serves
+    mk(cases, "robust", ["N:h", "S:h:c0:ok", "CHURN:%d" % (1500 if tier == "quick" else 6000), "N:y", "S:y:n2:ok", "N:z", "V:z:n2:ok", "G:z:2.9", "A:z", "P:z:2.9:true:-", "ST"], {"state": "abandoned"})
+    cases[-1]["noretry"] = True
     # directed: a peer resets its connection while its request is being handled and connects again from the same port; its next
     # (correct) request must be answered
     mk(cases, "robust", ["N:h", "S:h:c0:ok", "RSC:%d" % (4 if tier == "quick" else 20), "N:y", "S:y:n2:ok", "N:z", "V:z:n2:ok", "G:z:2.9", "A:z", "P:z:2.9:true:-", "ST"], {"state": "abandoned"})
